@@ -147,7 +147,8 @@ def one_case(args):
         # corpus (found under VERIF_SEED=6/7): an output file that shares its base name with the stderr / stdout
         # references, written in two directories
         nm = ['stderr', 'stdout'][i]
-        beh['files'] = {nm: (True, b'one\nline\n'), 'out.txt': (True, b'alpha\n')}
+        # (binary, so that no derived exclusion can hide a comparison with the wrong reference)
+        beh['files'] = {nm: (False, b'\x89BIN\r\n\x1a\n\x00\x00' + bytes(range(256)) * 2), 'out.txt': (True, b'alpha\n')}
         os.makedirs(sibling)
         beh['sibling'] = [nm]
         beh['both'] = [nm]
